@@ -216,7 +216,9 @@ func c03NexusGrammar(r *Rand) c03File {
 		nchar = len(rows[0])
 	}
 	var sb strings.Builder
-	fmt.Fprintf(&sb, "#NEXUS\nbegin %s;\ndimensions ntax=%d nchar=%d;\nformat datatype=%s", r.PickS("data", "characters"), ntax, nchar, r.PickS("dna", "nucleotide", "rna"))
+	// the counts as plain numbers, or with an explicit sign (an integer all the same)
+	dimFmt := r.PickS("dimensions ntax=%d nchar=%d;", "dimensions ntax=%d nchar=%d;", "dimensions ntax=%d nchar=%d;", "dimensions ntax=%+d nchar=%d;", "dimensions ntax=%d nchar=%+d;", "dimensions nchar=%[2]d ntax=%[1]d;", "dimensions nchar=%+[2]d ntax=%[1]d;")
+	fmt.Fprintf(&sb, "#NEXUS\nbegin %s;\n"+dimFmt+"\nformat datatype=%s", r.PickS("data", "characters"), ntax, nchar, r.PickS("dna", "nucleotide", "rna"))
 	opts := []string{"missing=" + missing, "gap=" + gap, "matchchar=" + match, "interleave=" + r.PickS("yes", "no")}
 	for _, k := range r.Perm(len(opts)) {
 		if r.Chance(0.6) {
@@ -390,7 +392,7 @@ func applyFault(r *Rand, b []byte, kind int, donor func() string) ([]byte, strin
 			l = locs[r.Intn(min(2, len(locs)))] // header counts come first
 		}
 		old, _ := strconv.Atoi(string(b[l[0]:l[1]]))
-		nv := []string{"0", "1", "2", strconv.Itoa(old + 1), strconv.Itoa(max(old-1, 0)), "300", "65536", "99999999999", "-3", "9223372036854775807", "99999999999999999999"}[r.Intn(11)]
+		nv := []string{"0", "1", "2", strconv.Itoa(old + 1), strconv.Itoa(max(old-1, 0)), "300", "65536", "99999999999", "-3", "9223372036854775807", "99999999999999999999", "+" + strconv.Itoa(old), "+" + strconv.Itoa(old+1)}[r.Intn(13)]
 		nb := append(append(append([]byte{}, b[:l[0]]...), nv...), b[l[1]:]...)
 		return nb, fmt.Sprintf("num@%d=%s", l[0], nv), l[0]
 	case 7: // splice a token / a line from another valid file
